@@ -69,6 +69,20 @@ pub fn run(ctx: &Ctx) {
         tx.access_list = (0..e).map(|a| ([0xd0 + a as u8; 20], (0..s).map(|x| { let mut k = [0u8; 32]; k[31] = x as u8; k[0] = a as u8; k }).collect())).collect();
         one("access-list-sizes", i, format!("{name},entries={e},slots-class={}", match s { 0 => "0", 1 => "1", _ => "many" }), &tx, &sigs()[2]);
     });
+    // two items of EQUAL LENGTH in one transaction: calldata exactly as long as the payload of the whole access list, of one
+    // entry, of an entry's key list (and one byte off) - a string and a list that need the same length header but for the
+    // base byte (anything keyed by the length alone confuses them)
+    let mut eq: Vec<(usize, usize, usize, i64, usize)> = Vec::new(); // (kind, entries, keys, delta, which list)
+    for ki in 1..3 { for e in 1..=6usize { for s in 0..=5usize { for which in 0..3 { for d in [-1i64, 0, 1] { eq.push((ki, e, s, d, which)); } } } } }
+    ctx.sweep("calldata-as-long-as-a-list-of-the-access-list", "typed transactions with 1..=6 access-list entries x 0..=5 storage keys each: calldata of exactly the payload length of {the access list, one entry, one key list} and one byte less / more, 2 typed kinds", eq.len() as u64, |i| {
+        let (ki, e, s, d, which) = eq[i as usize]; let (k, name) = kinds()[ki]; let mut tx = txjson::template(k, true);
+        tx.access_list = (0..e).map(|a| ([0xd0 + a as u8; 20], (0..s).map(|x| { let mut k = [0u8; 32]; k[31] = x as u8 + 1; k[0] = a as u8 + 1; k }).collect())).collect();
+        let hdr = |n: usize| if n < 56 { 1 } else { 1 + (usize::BITS as usize - n.leading_zeros() as usize + 7) / 8 };
+        let keys_payload = 33 * s; let entry_payload = 21 + hdr(keys_payload) + keys_payload; let list_payload = e * (hdr(entry_payload) + entry_payload);
+        let len = ([list_payload, entry_payload, keys_payload][which] as i64 + d).max(0) as usize;
+        tx.data = filler_bytes(ctx.seed, 0xE9 + i, len);
+        one("calldata-as-long-as-a-list-of-the-access-list", i, format!("{name},same-length-as={},delta={d},long-form={}", ["access-list", "entry", "key-list"][which], len >= 56), &tx, &sigs()[(i % 5) as usize]);
+    });
     // EQUAL elements inside one list: the same address in two entries (adjacent and apart, same and different keys), the same
     // key twice in one entry, the same key under two addresses, an entry equal to the recipient - every element is encoded,
     // in order, as often as it occurs (distinct transactions never share an encoding)
@@ -95,5 +109,6 @@ pub fn run(ctx: &Ctx) {
             one("access-list-2^16", i, format!("{name},slots=1990"), &tx, &sigs()[4]);
         });
     }
+    { let l: Vec<usize> = crate::hist::size_ladder(ctx.thorough()).into_iter().filter(|n| ctx.thorough() || *n <= (1 << 20) + 100).collect(); crate::hist::size_runs(ctx, P, "encoding-size-runs", "Transaction from JSON, sign, encode: calldata sizes across orders of magnitude on one fresh thread", &l, crate::hist::c06_sized(ctx.seed ^ 7)); }
     ctx.set_extra("distinct_encodings_seen", serde_json::json!(seen.lock().unwrap().len()));
 }
